@@ -84,6 +84,11 @@ def check(run):
     _getters(run, prog, cls)
 
 
+def _state(s):
+    """Fields after the constructor, without the collaborator objects whose own fields are listed as `owner.part`."""
+    return {f: t for f, t in s.fields.items() if not any(g.startswith(f + ".") for g in s.fields)}
+
+
 def _init(run, prog, cls):
     s = prog.summarise(cls, "__init__")
     run.analysed_fn(f"{CLS}.__init__")
@@ -91,7 +96,7 @@ def _init(run, prog, cls):
     params = [a.arg for a in fn.args.args][1:]
     run.need(params, "MultiValueTracker.__init__ takes no base tracker")
     bp = ("param", params[0])
-    base_fields = [f for f, t in s.fields.items() if bp in ir.subterms(t)]
+    base_fields = [f for f, t in _state(s).items() if bp in ir.subterms(t)]
     run.need(base_fields, "the base tracker is not stored")
     bf = base_fields[0]
     t = s.fields[bf]
@@ -109,7 +114,7 @@ def _fields(prog, cls):
     s = prog.summarise(cls, "__init__")
     _, fn = prog.find_method(cls, "__init__")
     bp = ("param", [a.arg for a in fn.args.args][1])
-    bf = [f for f, t in s.fields.items() if bp in ir.subterms(t)][0]
+    bf = [f for f, t in _state(s).items() if bp in ir.subterms(t)][0]
     dicts = [f for f, t in s.fields.items() if t[0] == "new" and t[2] == "dict"]
     if not dicts:
         # the per-key dict handed in (or defaulted) through the constructor: not a container of this instance
